@@ -87,11 +87,13 @@ theorem getElem?_flatMap_offset {α β} (l : List β) (f : β → List α) (j k 
 theorem setSlice_append {α} (pre old post vs : List α) (h : vs.length = old.length) :
     setSlice (pre ++ old ++ post) pre.length vs = pre ++ vs ++ post := by
   unfold setSlice
-  rw [List.append_assoc, List.take_left' rfl]
-  congr 1
-  rw [List.drop_append, List.drop_of_length_le (by omega), List.nil_append]
-  have : pre.length + vs.length - pre.length = old.length := by omega
-  rw [this, List.drop_left' rfl]
+  have e1 : pre ++ old ++ post = pre ++ (old ++ post) := List.append_assoc _ _ _
+  have e2 : List.take pre.length (pre ++ (old ++ post)) = pre := List.take_left' rfl
+  have e3 : List.drop (pre.length + vs.length) (pre ++ (old ++ post)) = post := by
+    rw [List.drop_append, List.drop_of_length_le (by omega), List.nil_append]
+    have : pre.length + vs.length - pre.length = old.length := by omega
+    rw [this, List.drop_left' rfl]
+  rw [e1, e2, e3]
 
 /-! ### `mapM` in `Option` -/
 
